@@ -42,6 +42,9 @@ type ReadPass struct {
 	StallDen  int               `json:"stall_den,omitempty"`
 	Piggyback bool              `json:"piggyback,omitempty"`
 	Via       string            `json:"via,omitempty"` // "" (bytes) | "atreader"
+	// Reuse: decode every frame of a kind into ONE destination message (it
+	// still holds the previous frame's contents), as a reader loop would.
+	Reuse bool `json:"reuse,omitempty"`
 }
 
 type FramesClean struct{}
@@ -83,7 +86,7 @@ func genBigPolicy(r *engine.PRNG) simio.ChunkPolicy {
 }
 
 func genPass(r *engine.PRNG) ReadPass {
-	p := ReadPass{Policy: genPolicy(r), Piggyback: r.Chance(1, 2)}
+	p := ReadPass{Policy: genPolicy(r), Piggyback: r.Chance(1, 2), Reuse: r.Chance(1, 2)}
 	if r.Chance(1, 3) {
 		p.StallSeed, p.StallDen = r.Uint64(), r.PickInt(2, 3, 5)
 	}
@@ -244,10 +247,19 @@ func checkFrameWritten(inv string, step int, spec MsgSpec, msg proto.Message, n 
 
 // readAll reads frames from s one per call and checks each against specs.
 // It is the reader half of the C06 oracle.
-func readAllFrames(inv string, stepBase int, s *simio.Stream, specs []MsgSpec, frameLens []int64, c *engine.RunCtx, task int) *engine.Failure {
+func readAllFrames(inv string, stepBase int, s *simio.Stream, specs []MsgSpec, frameLens []int64, c *engine.RunCtx, task int, reuse bool) *engine.Failure {
+	dest := map[string]proto.Message{}
 	for i, spec := range specs {
 		step := stepBase + i
 		msg := spec.Empty()
+		if reuse {
+			if d, ok := dest[spec.Kind]; ok {
+				msg = d
+				c.Stats.Inc("probe.C06.destination_message_reused")
+			} else {
+				dest[spec.Kind] = msg
+			}
+		}
 		before := s.Pos
 		s.BeginCall()
 		c.Status.SetStep(uint64(step), 1)
@@ -336,11 +348,18 @@ func (FramesClean) Execute(pl engine.Plan, c *engine.RunCtx) *engine.Failure {
 				} else {
 					h.BeginOp(simio.Arm{})
 				}
+				// Size/HeaderSize are asked BEFORE the frame is written (in a cold
+				// process: before anything else of the package has run)
+				sizeBefore, hsBefore := pbcmpl.Size(msg), pbcmpl.HeaderSize(msg)
 				c.Status.SetStep(uint64(step), 1)
 				n, err, pan := callMarshal(dst, msg)
 				c.Status.SetStep(uint64(step), 0)
 				c.LibCalls++
 				st.Inc("op.marshal." + spec.Kind)
+				if pan == nil && err == nil && (int64(sizeBefore) != n || hsBefore != 32) {
+					fail = engine.Failf("C06.size", step, "asked before writing, Size(msg)=%d and HeaderSize(msg)=%d; Marshal then wrote %d bytes", sizeBefore, hsBefore, n)
+					return
+				}
 				var got []byte
 				if sw != nil {
 					got = sw.Got[before:]
@@ -425,7 +444,7 @@ func (FramesClean) Execute(pl engine.Plan, c *engine.RunCtx) *engine.Failure {
 			}
 			stream.StallSeed, stream.StallDen, stream.Piggyback = pass.StallSeed, pass.StallDen, pass.Piggyback
 			policies[pass.Policy.Kind] = true
-			if f := readAllFrames("C06", 100000+wi*10000+pi*100, stream, w.Msgs, s.frameLens, c, wi); f != nil {
+			if f := readAllFrames("C06", 100000+wi*10000+pi*100, stream, w.Msgs, s.frameLens, c, wi, pass.Reuse); f != nil {
 				return f
 			}
 			if len(w.Msgs) > 1 {
@@ -518,6 +537,11 @@ func (FramesClean) Shrink(pl engine.Plan) []engine.Plan {
 			if ps.Policy.Kind != "whole" {
 				q := clone()
 				q.Writers[wi].Passes[i].Policy = simio.ChunkPolicy{Kind: "whole"}
+				out = append(out, q)
+			}
+			if ps.Reuse {
+				q := clone()
+				q.Writers[wi].Passes[i].Reuse = false
 				out = append(out, q)
 			}
 			if ps.StallDen != 0 || ps.Piggyback {
